@@ -167,7 +167,20 @@ def bel_loco_case(n):
                 notes=["utils::interp1d / interp3d replaced by their contracts (proved by C08's interp*_contract_* harnesses); exact interpolation is covered by the per-component harnesses"])
 
 
+def consist_cases(tier):
+    """consist-level fuel, battery and wheel totals equal the sums over the locomotives (the roll-up harness shared with C11)"""
+    import C11
+    cs = [C11.consist_rollup_case("CB", "RESGreedy", prop="C01")]
+    if tier == "thorough":
+        cs += [C11.consist_rollup_case("BC", "Proportional", prop="C01"), C11.consist_rollup_case("CC", "RESGreedy", prop="C01")]
+    return cs
+
+
 def m_cases(tier):
+    return _m_cases(tier) + consist_cases(tier)
+
+
+def _m_cases(tier):
     cs = [fc_case(3), gen_case(3), edrv_case(3), res_case(2, 2), conv_loco_case(2), bel_loco_case(2)]
     if tier == "thorough":
         cs += [fc_case(4), gen_case(4), edrv_case(4), res_case(3, 2), conv_loco_case(3), bel_loco_case(3)]
